@@ -446,4 +446,328 @@ theorem lhs_covers_domain (D : Dom K) (ρs : List (Env K)) (ρ pts : Env K) (box
 
 example : lhsCoord (0 : Rat) 1 4 2 (1/2) = 5/8 := by decide +kernel
 
+
+/-! ### tightness for primitives at a single parameter row -/
+
+def Dom.isPrim : Dom K → Prop
+  | .interval .. | .par .. | .tri .. | .circle .. | .sphere .. => True
+  | _ => False
+
+/-- the primitive is not empty at the row: `lb ≤ ub`, `0 ≤ r` (parallelograms and triangles always contain
+    their corners; positive measure implies all of this) -/
+def PrimOk : Dom K → Env K → Prop
+  | .interval _ lb ub, ρ => ∀ l u, lb.f ρ = [l] → ub.f ρ = [u] → l ≤ u
+  | .circle _ _ r, ρ | .sphere _ _ r, ρ => ∀ rr, r.f ρ = [rr] → 0 ≤ rr
+  | _, _ => True
+
+/-- some point of the set has the value `c` as its `i`-th coordinate -/
+def Attains (D : Dom K) (ρ : Env K) (i : Nat) (c : K) : Prop :=
+  ∃ pts p, mem D pts ρ ∧ flatPt D.vars pts = some p ∧ p[i]? = some c
+
+theorem eval1_inv {p : PFun K} {ρ : Env K} {a : K} (h : eval1 p ρ = some a) : p.f ρ = [a] := by
+  unfold eval1 at h; split at h
+  · rename_i b hb; simp only [Option.some.injEq] at h; subst h; exact hb
+  · simp at h
+theorem eval2_inv {p : PFun K} {ρ : Env K} {a b : K} (h : eval2 p ρ = some (a, b)) : p.f ρ = [a, b] := by
+  unfold eval2 at h; split at h
+  · rename_i a' b' hb; simp only [Option.some.injEq, Prod.mk.injEq] at h; obtain ⟨rfl, rfl⟩ := h; exact hb
+  · simp at h
+theorem eval3_inv {p : PFun K} {ρ : Env K} {a b c : K} (h : eval3 p ρ = some (a, b, c)) : p.f ρ = [a, b, c] := by
+  unfold eval3 at h; split at h
+  · rename_i a' b' c' hb; simp only [Option.some.injEq, Prod.mk.injEq] at h; obtain ⟨rfl, rfl, rfl⟩ := h; exact hb
+  · simp at h
+
+theorem span_single (a : K) : span [a] = some (a, a) := by simp [span, minL, maxL]
+
+theorem par_corner_mem (v : String) (o c1 c2 : PFun K) (ρ : Env K) (ox oy ax ay bx cy : K)
+    (ho : o.f ρ = [ox, oy]) (h1 : c1.f ρ = [ax, ay]) (h2 : c2.f ρ = [bx, cy])
+    (hag : ∀ q, Agree (.par v o c1 c2) [(v, q)] ρ) :
+    ∀ p ∈ [(ox, oy), (ax, ay), (bx, cy), (ax + bx - ox, ay + cy - oy)], mem (.par v o c1 c2) [(v, [p.1, p.2])] ρ := by
+  intro p hp
+  have A := hag [p.1, p.2]
+  simp only [Agree] at A
+  have key : ∀ s t : K, 0 ≤ s → s ≤ 1 → 0 ≤ t → t ≤ 1 → p.1 = ox + s * (ax - ox) + t * (bx - ox) →
+      p.2 = oy + s * (ay - oy) + t * (cy - oy) → mem (.par v o c1 c2) [(v, [p.1, p.2])] ρ := by
+    intro s t a b c d e1 e2
+    exact ⟨p.1, p.2, ox, oy, ax, ay, bx, cy, s, t, get_single v _, by rw [A.1, ho], by rw [A.2.1, h1], by rw [A.2.2, h2], a, b, c, d, e1, e2⟩
+  simp only [List.mem_cons, List.not_mem_nil, or_false] at hp
+  rcases hp with rfl | rfl | rfl | rfl
+  · exact key 0 0 le_rfl zero_le_one le_rfl zero_le_one (by ring) (by ring)
+  · exact key 1 0 zero_le_one le_rfl le_rfl zero_le_one (by ring) (by ring)
+  · exact key 0 1 le_rfl zero_le_one zero_le_one le_rfl (by ring) (by ring)
+  · exact key 1 1 zero_le_one le_rfl zero_le_one le_rfl (by simp only []; ring) (by simp only []; ring)
+
+theorem tri_corner_mem (v : String) (o c1 c2 : PFun K) (ρ : Env K) (ox oy ax ay bx cy : K)
+    (ho : o.f ρ = [ox, oy]) (h1 : c1.f ρ = [ax, ay]) (h2 : c2.f ρ = [bx, cy])
+    (hag : ∀ q, Agree (.tri v o c1 c2) [(v, q)] ρ) :
+    ∀ p ∈ [(ox, oy), (ax, ay), (bx, cy)], mem (.tri v o c1 c2) [(v, [p.1, p.2])] ρ := by
+  intro p hp
+  have A := hag [p.1, p.2]
+  simp only [Agree] at A
+  have key : ∀ s t : K, 0 ≤ s → 0 ≤ t → s + t ≤ 1 → p.1 = ox + s * (ax - ox) + t * (bx - ox) →
+      p.2 = oy + s * (ay - oy) + t * (cy - oy) → mem (.tri v o c1 c2) [(v, [p.1, p.2])] ρ := by
+    intro s t a b c e1 e2
+    exact ⟨p.1, p.2, ox, oy, ax, ay, bx, cy, s, t, get_single v _, by rw [A.1, ho], by rw [A.2.1, h1], by rw [A.2.2, h2], a, b, c, e1, e2⟩
+  simp only [List.mem_cons, List.not_mem_nil, or_false] at hp
+  rcases hp with rfl | rfl | rfl
+  · exact key 0 0 le_rfl le_rfl (by norm_num) (by ring) (by ring)
+  · exact key 1 0 zero_le_one le_rfl (by norm_num) (by ring) (by ring)
+  · exact key 0 1 le_rfl zero_le_one (by norm_num) (by ring) (by ring)
+
+/-- **Tightness.**  For a primitive (interval, parallelogram, triangle, disc, ball) that is not empty,
+    evaluated at a single parameter row, every bound of the returned box is attained: for each axis there
+    is a point of the set whose coordinate equals the minimum and one whose coordinate equals the maximum. -/
+theorem bbox_tight_prim (D : Dom K) (ρ : Env K) (box : List (K × K)) (hprim : D.isPrim) (hok : PrimOk D ρ)
+    (hag : ∀ v q, D.vars = [v] → Agree D [(v, q)] ρ) (hb : bbox D [ρ] ρ = some box) :
+    ∀ i (h : i < box.length), Attains D ρ i box[i].1 ∧ Attains D ρ i box[i].2 := by
+  cases D with
+  | interval v lb ub =>
+    have hag' := fun q => hag v q rfl
+    simp only [bbox] at hb
+    split at hb
+    · rename_i ls us hls hus
+      obtain ⟨l, hl, rfl⟩ := mapOpt_single hls
+      obtain ⟨u, hu, rfl⟩ := mapOpt_single hus
+      simp only [minL, maxL, List.foldl_nil, Option.some.injEq] at hb
+      subst hb
+      have hl' := eval1_inv hl
+      have hu' := eval1_inv hu
+      have hle := hok l u hl' hu'
+      intro i h
+      have hi : i = 0 := by simpa using h
+      subst hi
+      have A1 := hag' [l]; have A2 := hag' [u]
+      simp only [Agree] at A1 A2
+      refine ⟨⟨[(v, [l])], [l], ⟨l, l, u, get_single v _, by rw [A1.1, hl'], by rw [A1.2, hu'], le_rfl, hle⟩,
+                flatPt_single (get_single v _), rfl⟩,
+              ⟨[(v, [u])], [u], ⟨u, l, u, get_single v _, by rw [A2.1, hl'], by rw [A2.2, hu'], hle, le_rfl⟩,
+                flatPt_single (get_single v _), rfl⟩⟩
+    · simp at hb
+  | par v o c1 c2 =>
+    have hag' := fun q => hag v q rfl
+    simp only [bbox] at hb
+    split at hb
+    · rename_i cs hcs
+      obtain ⟨cr, hcr, rfl⟩ := mapOpt_single hcs
+      simp only [List.flatten_cons, List.flatten_nil, List.append_nil] at hb
+      unfold parCorners at hcr
+      split at hcr
+      · rename_i ox oy ax ay bx cy ho h1 h2
+        simp only [Option.some.injEq] at hcr
+        subst hcr
+        have M := par_corner_mem v o c1 c2 ρ ox oy ax ay bx cy (eval2_inv ho) (eval2_inv h1) (eval2_inv h2) hag'
+        obtain ⟨x0, x1, y0, y1, rfl, -, ⟨p1, hp1, e1⟩, ⟨p2, hp2, e2⟩, ⟨p3, hp3, e3⟩, ⟨p4, hp4, e4⟩⟩ := box2_spec hb
+        have at0 : ∀ p ∈ [(ox, oy), (ax, ay), (bx, cy), (ax + bx - ox, ay + cy - oy)], Attains (.par v o c1 c2) ρ 0 p.1 :=
+          fun p hp => ⟨[(v, [p.1, p.2])], [p.1, p.2], M p hp, flatPt_single (get_single v _), rfl⟩
+        have at1 : ∀ p ∈ [(ox, oy), (ax, ay), (bx, cy), (ax + bx - ox, ay + cy - oy)], Attains (.par v o c1 c2) ρ 1 p.2 :=
+          fun p hp => ⟨[(v, [p.1, p.2])], [p.1, p.2], M p hp, flatPt_single (get_single v _), rfl⟩
+        intro i h
+        have hi : i = 0 ∨ i = 1 := by simp at h; omega
+        rcases hi with rfl | rfl
+        · exact ⟨e1 ▸ at0 p1 hp1, e2 ▸ at0 p2 hp2⟩
+        · exact ⟨e3 ▸ at1 p3 hp3, e4 ▸ at1 p4 hp4⟩
+      · simp at hcr
+    · simp at hb
+  | tri v o c1 c2 =>
+    have hag' := fun q => hag v q rfl
+    simp only [bbox] at hb
+    split at hb
+    · rename_i cs hcs
+      obtain ⟨cr, hcr, rfl⟩ := mapOpt_single hcs
+      simp only [List.flatten_cons, List.flatten_nil, List.append_nil] at hb
+      unfold triCorners at hcr
+      split at hcr
+      · rename_i o' a b ho h1 h2
+        obtain ⟨ox, oy⟩ := o'; obtain ⟨ax, ay⟩ := a; obtain ⟨bx, cy⟩ := b
+        simp only [Option.some.injEq] at hcr
+        subst hcr
+        have M := tri_corner_mem v o c1 c2 ρ ox oy ax ay bx cy (eval2_inv ho) (eval2_inv h1) (eval2_inv h2) hag'
+        obtain ⟨x0, x1, y0, y1, rfl, -, ⟨p1, hp1, e1⟩, ⟨p2, hp2, e2⟩, ⟨p3, hp3, e3⟩, ⟨p4, hp4, e4⟩⟩ := box2_spec hb
+        have at0 : ∀ p ∈ [(ox, oy), (ax, ay), (bx, cy)], Attains (.tri v o c1 c2) ρ 0 p.1 :=
+          fun p hp => ⟨[(v, [p.1, p.2])], [p.1, p.2], M p hp, flatPt_single (get_single v _), rfl⟩
+        have at1 : ∀ p ∈ [(ox, oy), (ax, ay), (bx, cy)], Attains (.tri v o c1 c2) ρ 1 p.2 :=
+          fun p hp => ⟨[(v, [p.1, p.2])], [p.1, p.2], M p hp, flatPt_single (get_single v _), rfl⟩
+        intro i h
+        have hi : i = 0 ∨ i = 1 := by simp at h; omega
+        rcases hi with rfl | rfl
+        · exact ⟨e1 ▸ at0 p1 hp1, e2 ▸ at0 p2 hp2⟩
+        · exact ⟨e3 ▸ at1 p3 hp3, e4 ▸ at1 p4 hp4⟩
+      · simp at hcr
+    · simp at hb
+  | circle v c r =>
+    have hag' := fun q => hag v q rfl
+    simp only [bbox] at hb
+    split at hb
+    · rename_i cs rs hcs hrs
+      obtain ⟨cc, hc, rfl⟩ := mapOpt_single hcs
+      obtain ⟨rr, hr, rfl⟩ := mapOpt_single hrs
+      obtain ⟨cx, cy⟩ := cc
+      simp only [List.map_cons, List.map_nil, span_single, maxL, List.foldl_nil, Option.some.injEq] at hb
+      subst hb
+      have hc' := eval2_inv hc
+      have hr' := eval1_inv hr
+      have h0 := hok rr hr'
+      have M : ∀ x y : K, (x - cx) ^ 2 + (y - cy) ^ 2 ≤ rr ^ 2 → mem (.circle v c r) [(v, [x, y])] ρ := by
+        intro x y hd
+        have A := hag' [x, y]
+        simp only [Agree] at A
+        exact ⟨x, y, cx, cy, rr, get_single v _, by rw [A.1, hc'], by rw [A.2, hr'], h0, hd⟩
+      intro i h
+      have hi : i = 0 ∨ i = 1 := by simp at h; omega
+      rcases hi with rfl | rfl
+      · exact ⟨⟨[(v, [cx - rr, cy])], _, M _ _ (by ring_nf; exact le_rfl), flatPt_single (get_single v _), rfl⟩,
+               ⟨[(v, [cx + rr, cy])], _, M _ _ (by ring_nf; exact le_rfl), flatPt_single (get_single v _), rfl⟩⟩
+      · exact ⟨⟨[(v, [cx, cy - rr])], _, M _ _ (by ring_nf; exact le_rfl), flatPt_single (get_single v _), rfl⟩,
+               ⟨[(v, [cx, cy + rr])], _, M _ _ (by ring_nf; exact le_rfl), flatPt_single (get_single v _), rfl⟩⟩
+    · simp at hb
+  | sphere v c r =>
+    have hag' := fun q => hag v q rfl
+    simp only [bbox] at hb
+    split at hb
+    · rename_i cs rs hcs hrs
+      obtain ⟨cc, hc, rfl⟩ := mapOpt_single hcs
+      obtain ⟨rr, hr, rfl⟩ := mapOpt_single hrs
+      obtain ⟨cx, cy, cz⟩ := cc
+      simp only [List.map_cons, List.map_nil, span_single, maxL, List.foldl_nil, Option.some.injEq] at hb
+      subst hb
+      have hc' := eval3_inv hc
+      have hr' := eval1_inv hr
+      have h0 := hok rr hr'
+      have M : ∀ x y z : K, (x - cx) ^ 2 + (y - cy) ^ 2 + (z - cz) ^ 2 ≤ rr ^ 2 → mem (.sphere v c r) [(v, [x, y, z])] ρ := by
+        intro x y z hd
+        have A := hag' [x, y, z]
+        simp only [Agree] at A
+        exact ⟨x, y, z, cx, cy, cz, rr, get_single v _, by rw [A.1, hc'], by rw [A.2, hr'], h0, hd⟩
+      intro i h
+      have hi : i = 0 ∨ i = 1 ∨ i = 2 := by simp at h; omega
+      rcases hi with rfl | rfl | rfl
+      · exact ⟨⟨[(v, [cx - rr, cy, cz])], _, M _ _ _ (by ring_nf; exact le_rfl), flatPt_single (get_single v _), rfl⟩,
+               ⟨[(v, [cx + rr, cy, cz])], _, M _ _ _ (by ring_nf; exact le_rfl), flatPt_single (get_single v _), rfl⟩⟩
+      · exact ⟨⟨[(v, [cx, cy - rr, cz])], _, M _ _ _ (by ring_nf; exact le_rfl), flatPt_single (get_single v _), rfl⟩,
+               ⟨[(v, [cx, cy + rr, cz])], _, M _ _ _ (by ring_nf; exact le_rfl), flatPt_single (get_single v _), rfl⟩⟩
+      · exact ⟨⟨[(v, [cx, cy, cz - rr])], _, M _ _ _ (by ring_nf; exact le_rfl), flatPt_single (get_single v _), rfl⟩,
+               ⟨[(v, [cx, cy, cz + rr])], _, M _ _ _ (by ring_nf; exact le_rfl), flatPt_single (get_single v _), rfl⟩⟩
+    · simp at hb
+  | union _ _ | cut _ _ | inter _ _ | prod _ _ | translate _ _ _ | rotate _ _ _ _ | bdry _ | bdryL _ | bdryR _ =>
+    exact absurd hprim (by simp [Dom.isPrim])
+
+
+/-- non-vacuity: the disc of radius 3 about (1, 2) — the bound −2 of the first axis is attained -/
+example : Attains (.circle "x" (.const [1, 2]) (.const [3]) : Dom Rat) [] 0 (-2) :=
+  (bbox_tight_prim (.circle "x" (.const [1, 2]) (.const [3])) [] [(-2, 4), (-1, 5)] trivial
+    (by intro rr h; simp only [PFun.const, List.cons.injEq, and_true] at h; subst h; norm_num)
+    (by intro v q _; simp [Agree, PFun.const]) (by decide +kernel) 0 (by simp)).1
+
+/-! ### the whole call `bounding_box(params)`: one flat box, or one box per row -/
+
+/-- motions that declare no arguments are constant functions (what the constructors wrap for numbers /
+    lists / tensors) -/
+def ConstMotions : Dom K → Prop
+  | .interval .. | .par .. | .tri .. | .circle .. | .sphere .. => True
+  | .union a b | .cut a b | .inter a b | .prod a b => ConstMotions a ∧ ConstMotions b
+  | .translate _ d t => (t.args = [] → ∀ ρ ρ', t.f ρ = t.f ρ') ∧ ConstMotions d
+  | .rotate _ d m c => (m.args = [] → ∀ ρ ρ', m.f ρ = m.f ρ') ∧ (c.args = [] → ∀ ρ ρ', c.f ρ = c.f ρ') ∧ ConstMotions d
+  | .bdry d | .bdryL d | .bdryR d => ConstMotions d
+
+theorem bbox_row_irrelevant (D : Dom K) : D.perRow = false → ConstMotions D → ∀ ρs ρ ρ', bbox D ρs ρ = bbox D ρs ρ' := by
+  induction D with
+  | interval | par | tri | circle | sphere => intros; simp only [bbox]
+  | union a b iha ihb | inter a b iha ihb | prod a b iha ihb =>
+    intro hp hc ρs ρ ρ'
+    simp only [Dom.perRow, Bool.or_eq_false_iff] at hp
+    simp only [bbox, iha hp.1 hc.1 ρs ρ ρ', ihb hp.2 hc.2 ρs ρ ρ']
+  | cut a b iha _ =>
+    intro hp hc ρs ρ ρ'
+    simp only [Dom.perRow] at hp
+    simp only [bbox, iha hp hc.1 ρs ρ ρ']
+  | translate v d t ih =>
+    intro hp hc ρs ρ ρ'
+    simp only [Dom.perRow, Bool.or_eq_false_iff, Bool.not_eq_false', List.isEmpty_iff] at hp
+    simp only [bbox, ih hp.2 hc.2 ρs ρ ρ', hc.1 hp.1 ρ ρ']
+  | rotate v d m c ih =>
+    intro hp hc ρs ρ ρ'
+    simp only [Dom.perRow, Bool.or_eq_false_iff, Bool.not_eq_false', List.isEmpty_iff] at hp
+    simp only [bbox, ih hp.2 hc.2.2 ρs ρ ρ', hc.1 hp.1.1 ρ ρ', hc.2.1 hp.1.2 ρ ρ']
+  | bdry d ih | bdryL d ih | bdryR d ih =>
+    intro hp hc ρs ρ ρ'
+    simp only [Dom.perRow] at hp
+    simp only [bbox, ih hp hc ρs ρ ρ']
+
+theorem mapOpt_map {α β : Type} {f : α → Option β} : ∀ {l : List α} {r : List β}, mapOpt f l = some r → l.map f = r.map some := by
+  intro l
+  induction l with
+  | nil => intro r h; simp only [mapOpt, Option.some.injEq] at h; subst h; rfl
+  | cons x xs ih =>
+    intro r h
+    simp only [mapOpt] at h
+    split at h
+    · rename_i b bs hb hbs
+      simp only [Option.some.injEq] at h
+      subst h
+      simp [hb, ih hbs]
+    · simp at h
+
+/-- **flat result**: when the call returns a single box (at most one row, or no motion depends on
+    parameters), that box encloses the set at EVERY supplied parameter row -/
+theorem bboxCall_flat_encloses (D : Dom K) (ρs : List (Env K)) (box : List (K × K))
+    (hcall : bboxCall D ρs = some (.inl box)) (hw : D.wfVars) (hc : ConstMotions D) :
+    ∀ ρ ∈ ρs, ∀ pts p, Agree D pts ρ → mem D pts ρ → flatPt D.vars pts = some p → Inside box p := by
+  intro ρ hρ pts p hag hm hp
+  cases ρs with
+  | nil => simp at hρ
+  | cons ρ0 rest =>
+    simp only [bboxCall] at hcall
+    split at hcall
+    · rename_i hcond
+      have hb0 : bbox D (ρ0 :: rest) ρ0 = some box := by
+        cases hbb : bbox D (ρ0 :: rest) ρ0 with
+        | none => simp [hbb] at hcall
+        | some b => simp [hbb] at hcall; rw [hcall]
+      have hb : bbox D (ρ0 :: rest) ρ = some box := by
+        simp only [Bool.or_eq_true, List.isEmpty_iff, Bool.not_eq_true'] at hcond
+        rcases hcond with hr | hpr
+        · subst hr
+          simp only [List.mem_singleton] at hρ
+          rw [hρ]; exact hb0
+        · rw [bbox_row_irrelevant D hpr hc _ ρ ρ0]; exact hb0
+      exact bbox_encloses D _ ρ pts box p hw hρ hag hm hb hp
+    · split at hcall
+      · simp at hcall
+      · cases hmm : mapOpt (bbox D (ρ0 :: rest)) (ρ0 :: rest) <;> simp [hmm] at hcall
+
+/-- **one box per row**: when the call returns a box per parameter row (a motion depends on parameters and
+    two or more rows are supplied), there are as many boxes as rows and the `i`-th box encloses the set at
+    the `i`-th row -/
+theorem bboxCall_rows_enclose (D : Dom K) (ρs : List (Env K)) (boxes : List (List (K × K)))
+    (hcall : bboxCall D ρs = some (.inr boxes)) (hw : D.wfVars) :
+    boxes.length = ρs.length ∧
+    ∀ i (h : i < ρs.length) b, boxes[i]? = some b →
+      ∀ pts p, Agree D pts ρs[i] → mem D pts ρs[i] → flatPt D.vars pts = some p → Inside b p := by
+  cases ρs with
+  | nil => simp [bboxCall] at hcall
+  | cons ρ0 rest =>
+    simp only [bboxCall] at hcall
+    split at hcall
+    · cases hbb : bbox D (ρ0 :: rest) ρ0 <;> simp [hbb] at hcall
+    · split at hcall
+      · simp at hcall
+      · cases hmm : mapOpt (bbox D (ρ0 :: rest)) (ρ0 :: rest) with
+        | none => simp [hmm] at hcall
+        | some bs =>
+          simp only [hmm, Option.map_some, Option.some.injEq, Sum.inr.injEq] at hcall
+          subst hcall
+          have hmap := mapOpt_map hmm
+          have hlen : bs.length = (ρ0 :: rest).length := by
+            have := congrArg List.length hmap; simpa using this.symm
+          refine ⟨hlen, ?_⟩
+          intro i h b hb pts p hag hm hp
+          have e : ((ρ0 :: rest).map (bbox D (ρ0 :: rest)))[i]? = (bs.map some)[i]? := by rw [hmap]
+          rw [List.getElem?_map, List.getElem?_map, List.getElem?_eq_getElem h, hb] at e
+          simp only [Option.map_some, Option.some.injEq] at e
+          exact bbox_encloses D _ _ pts b p hw (List.getElem_mem h) hag hm e hp
+
+example : bboxCall exMove [[("t", [0])], [("t", [1])]] = some (.inr [[(-1, 2), (-1, 1)], [(0, 3), (1, 3)]]) := by decide +kernel
+example : bboxCall exRot [[]] = some (.inl [(-4/5, 3/5), (0, 7/5)]) := by decide +kernel
+
+
 end TPV.Geom
